@@ -494,6 +494,24 @@ std::string add_topology(const Plan &p, Case &c, bool two_types, double box, boo
   g_perturb = false;
   c.files[names[tf]] = gen_trajectory(q, box, p.nmol * p.chain);
   g_perturb = saved;
+  if (tf == 2 && p.chain >= 2) {
+    // PDB topologies carry the chain bonds as CONECT records (both directions, as PDB files do): the reader builds molecules,
+    // bonds and exclusions from them - state that must not leak from one ReadTopology call (worker) to the next
+    std::string conect;
+    char line[64];
+    for (int m = 0; m < p.nmol; m++)
+      for (int b = 0; b < p.chain; b++) {
+        int a = m * p.chain + b + 1;
+        std::string l = "CONECT";
+        snprintf(line, sizeof line, "%5d", a); l += line;
+        if (b > 0) { snprintf(line, sizeof line, "%5d", a - 1); l += line; }
+        if (b + 1 < p.chain) { snprintf(line, sizeof line, "%5d", a + 1); l += line; }
+        conect += l + "\n";
+      }
+    std::string &t = c.files[names[tf]];
+    size_t e = t.rfind("ENDMDL\n");
+    if (e != std::string::npos) t.insert(e, conect);
+  }
   return names[tf];
 }
 
